@@ -277,15 +277,20 @@ class C12(Spec):
     technique = ('Lean 4 proofs over an executable model of the argument validation and mutation order of every fallible container / '
                  'value operation (index arithmetic on BitVec 64); white-box differential check of the model against the real library; '
                  'independent reference + before/after dump oracle in C under ASan/UBSan, risky calls probed in a forked child')
-    level_text = ('Theorems C12_failure_atomic_* / C12_raises_exactly_* / C12_then_usable: for every state and every argument, an operation of the '
-                  'model of Array, List, Tuple (heap and stack), Table, Tree, String (heap, stack, static), Range, Slice, Zip and plain values that '
-                  'ends in an exception returns the state it was given and raises exactly the exception of a declarative specification of invalid '
-                  'arguments (index outside [-len, len) incl. the int64 limits through the size_t/int64_t conversions, empty pop, absent key/element, '
-                  'wrong-typed key/value/element, NULL, unimplemented class or member, non-heap object for a reallocating op, unsupported resize, too '
-                  'few format arguments); the next operation therefore behaves as on the original state. The model is tied to the C code by executing '
-                  'thousands of valid/invalid operation histories on both and comparing result, exception type and a white-box dump after every '
-                  'operation. Exceptions to atomicity that the code really has are modelled as they are, proved as `_refuted` theorems and listed '
-                  'as known findings.')
+    level_text = ('Theorems over the executable model lean/Cello/Fail.lean (46, no sorry): C12_failure_atomic — for every store of objects (Array, List, '
+                  'heap and stack Tuple, Table, Tree, heap/stack/static String, Range, Slice, Zip, plain Int/Plain values), every object and every '
+                  'operation outside the territories of the known findings, an operation that raises leaves the observable state of every object '
+                  'unchanged (C12_failure_atomic_exact: the very same store, unless the object is a slot-less Table or a Slice); per type '
+                  'C12_failure_atomic_<type> and C12_raises_exactly_<type>: the exception raised is exactly the one a declarative specification '
+                  'documents for exactly the invalid arguments (index outside [-len, len) for every 64-bit index incl. INT64_MIN/MAX through the '
+                  'size_t/int64_t conversions — C12_index_raises_exactly on BitVec 64; empty pop; absent key / element / substring; wrong-typed or '
+                  'NULL key, value, element, index; unimplemented class or member; non-heap Tuple/String for a reallocating operation; unsupported '
+                  'resize; too few / wrong-typed print_to arguments; dealloc of a non-heap object; calls on NULL); C12_then_usable: after a failed '
+                  'operation every further operation on every object behaves as on the original store; C12_invariant_*: the typing / slot invariants '
+                  'the theorems assume are preserved along every history. The model is tied to the C code by executing thousands of valid/invalid '
+                  'operation histories on both and comparing result, exception type and a white-box dump after every operation; an independent C '
+                  'reference and a before/after dump oracle run on the real library under ASan/UBSan. Deviations the code really has are modelled '
+                  'as they are, proved as *_refuted theorems on concrete witnesses and listed as known findings.')
     level_note = ('Trusted: Lean kernel; the hand-written model lean/Cello/Fail.lean (validated by the correspondence, which is testing); harness and '
                   'driver; libc. Not covered: allocation failure (OutOfMemoryError paths), Float/File/Thread objects, iteration of views (C11), '
                   'states reached through a known finding on String-element arrays.')
@@ -305,7 +310,7 @@ class C12(Spec):
                    'not generated (known findings, each with witness corpus/kf_c12_*.ops and a _refuted theorem): wrong-typed / NULL element pushed, '
                    'inserted or concatenated into an Array (F15); print_to failing after its first segment (F29); concat into a List from a source with '
                    'a wrong-typed element; assign into Array/List/Table/Tree from a non-iterable; foreach over an object without Iter (concat/assign from '
-                   'a scalar); rem/mem on a String with a non-String argument; get on a Range with step 0; Range/Slice get with a positive index large '
+                   'a scalar: NULL instance pointer dereferenced); rem/mem on a String with a non-String argument; get on a Range with step 0; Range/Slice get with a positive index large '
                    'enough to overflow start + step*i',
                    'not generated: NULL stored into a Tuple; growing a List of String by resize (creates NULL strings); print_to at a position beyond the '
                    'end of the sink; nested views; allocation failure')
